@@ -32,6 +32,10 @@ ALSO = {'C03': {'R03.1': 'the Path written decodes back to the location (no byte
          'R04.2': 'the payload goes to the name whose .trashinfo was won'},
  'C10': {'R10.4': 'a freshly trashed payload must not be purged as an orphan before it can be '
                   'restored'},
+ 'C12': {'R12.2': 'a trash-rm between put and restore removes only what its pattern names '
+                  '(basename, or full path for /patterns)',
+         'R12.3': 'a trash-rm between put and restore removes only entries its pattern '
+                  'matched'},
  'C13': {'R13.2': 'an entry is offered from its original directory or any ancestor (scope at a '
                   'component boundary, nothing else)'}}
 
